@@ -18,6 +18,7 @@ func init() {
 		Level: "exploration",
 		Rule: "metamorphic: the top-level blocks of a generated model (types referencing later types, enums used inside referenced types, allOf chains of depth >= 2, tags used before TAG, Path declared after its users) are permuted - all n! orders for small n, sampled beyond - " +
 			"and every permuted document is compared with the original order: same verdict; every entry of userTypes, userEnums, servers, interactions and tags has the same content (entries matched by key; a tag's interaction lists compared as the correspondingly reordered lists); " +
+			"a second family permutes 2-4 hand-shaped blocks whose names, paths and JSON-RPC method names are hostile strings chosen to collide or nearly collide after serialisation (spaces, doubled spaces, quotes, non-ASCII, '/b /a' against 'a /b'): every order must give the same verdict and, when accepted, the same set of keys with the same entries; " +
 			"and the key order of every collection is the order of the declarations in the permuted document (declared tags in TAG order, automatic tags in order of their first interaction). " +
 			"distinct_nontrivial = distinct (number of blocks, reference features present, outcome)",
 		Assumptions: []string{
@@ -28,8 +29,9 @@ func init() {
 			{Name: "chain", N: func(string) int { return 1 }, Gen: func(r *xrand.Rand, idx int, tier string) *fw.Case {
 				return &fw.Case{Meta: map[string]string{"fixed": "chain"}, Docs: []run.Doc{{}}}
 			}, Eval: c10Eval},
+			{Name: "hostile-blocks", N: constN(1500, 50000), Gen: c10GenHostile, Eval: c10EvalHostile},
 		},
-		Floors: map[string]int64{"permutations_compared": 8000},
+		Floors: map[string]int64{"permutations_compared": 8000, "hostile_permutations_compared": 5000},
 	})
 }
 
@@ -259,4 +261,121 @@ func stripKey(n *jsonx.Node, key string) *jsonx.Node {
 		return out
 	}
 	return n
+}
+
+
+// ---- hostile names: blocks whose identifiers collide or nearly collide ----
+
+func c10GenHostile(r *xrand.Rand, idx int, tier string) *fw.Case {
+	h := func() string { return hostile[r.Intn(len(hostile))] }
+	pick := func(ss ...string) string { return ss[r.Intn(len(ss))] }
+	n := r.Range(2, 4)
+	var blocks []string
+	// a small pool so that collisions are likely
+	pool := []string{h(), h(), "a", "b /a", "a /b", "/b /a", "x", "x /y", "a  b", "a b"}
+	pp := func() string { return pool[r.Intn(len(pool))] }
+	if r.Chance(1, 4) {
+		// two JSON-RPC methods with different (method, path) pairs but one textual id: "M P1" at P2 against M at "P1 P2"
+		m, p1, p2 := pick("a", "x", "m"), pick("/b", "/y"), pick("/a", "/r")
+		blocks = append(blocks,
+			"URL "+quoteParam(p2)+"\n  Protocol json-rpc-2.0\n  Method "+quoteParam(m+" "+p1)+"\n    Params\n    {}\n",
+			"URL "+quoteParam(p1+" "+p2)+"\n  Protocol json-rpc-2.0\n  Method "+quoteParam(m)+"\n    Params\n    {}\n")
+		n -= 2
+	}
+	for i := 0; i < n; i++ {
+		switch r.Intn(6) {
+		case 0, 1: // JSON-RPC block
+			u := "/" + pp()
+			b := "URL " + quoteParam(u) + "\n  Protocol json-rpc-2.0\n"
+			for k := r.Range(1, 2); k > 0; k-- {
+				b += "  Method " + quoteParam(pp()) + "\n    Params\n    {}\n"
+			}
+			blocks = append(blocks, b)
+		case 2: // path-bearing method
+			blocks = append(blocks, pick("GET", "POST")+" "+quoteParam("/"+pp())+"\n  200 any\n")
+		case 3: // URL block with methods
+			blocks = append(blocks, "URL "+quoteParam("/"+pp())+"\n  "+pick("GET", "POST")+"\n    200 any\n")
+		case 4: // path with parameters differing in name only
+			blocks = append(blocks, "GET /p/{"+pick("a", "b", "a")+"}/"+pick("x", "y", "x")+"\n  200 any\n")
+		default:
+			blocks = append(blocks, pick("TAG @"+pick("a", "b"), "TYPE @"+pick("a", "b")+" any", "SERVER @"+pick("a", "b")+"\n  BaseUrl \"https://"+pick("a", "b")+"/\"", "ENUM @"+pick("a", "b")+"\n[1]")+"\n")
+		}
+	}
+	return &fw.Case{Meta: map[string]string{"blocks": strings.Join(blocks, "\x00")}, Docs: []run.Doc{{}}}
+}
+
+func c10EvalHostile(t *fw.T, c *fw.Case) {
+	blocks := strings.Split(c.Meta["blocks"], "\x00")
+	r := xrand.Derive(t.Seed, c.Index, "C10", "hostile")
+	perms := permutations(len(blocks), 24, r)
+	render := func(p []int) string {
+		var sb strings.Builder
+		sb.WriteString("JSIGHT 0.3\n")
+		for _, i := range p {
+			sb.WriteString(blocks[i])
+		}
+		return sb.String()
+	}
+	var base *run.Obs
+	var baseText string
+	var baseRoot *jsonx.Node
+	for k, p := range perms {
+		text := render(p)
+		d := run.Single([]byte(text))
+		d.FixedSeed = true
+		o := t.Exec(d)
+		if o.Outcome == run.Panic || o.Outcome == run.Budget {
+			c.Docs = []run.Doc{d}
+			t.Violation("permuted-crashes:"+outcomeSig(o), fmt.Sprintf("%s\n%s", describe(o), text))
+			return
+		}
+		if k == 0 {
+			base, baseText = o, text
+			if o.Outcome == run.Accepted {
+				if j, err := jsonx.Parse(o.JSON); err == nil {
+					baseRoot = j.Root
+				}
+			}
+			continue
+		}
+		t.Count("hostile_permutations_compared")
+		if o.Outcome != base.Outcome {
+			c.Docs = []run.Doc{run.Single([]byte(baseText)), d}
+			t.Violation("verdict-changes:"+base.Outcome+"->"+o.Outcome+":"+run.MsgTemplate(base.Msg+o.Msg), fmt.Sprintf("reordering the top-level blocks changes the verdict\n--- %s\n%s\n--- %s\n%s", describe(base), baseText, describe(o), text))
+			return
+		}
+		if o.Outcome != run.Accepted || baseRoot == nil {
+			continue
+		}
+		j, err := jsonx.Parse(o.JSON)
+		if err != nil {
+			continue
+		}
+		for _, coll := range []string{"interactions", "userTypes", "userEnums", "servers"} {
+			a, b := baseRoot.Get(coll), j.Root.Get(coll)
+			if a == nil || b == nil {
+				continue
+			}
+			if len(a.Keys) != len(b.Keys) {
+				c.Docs = []run.Doc{run.Single([]byte(baseText)), d}
+				t.Violation("entry-set-changes:"+coll, fmt.Sprintf("reordering changes the number of %s entries (%d vs %d)\n--- \n%s\n--- \n%s", coll, len(a.Keys), len(b.Keys), baseText, text))
+				return
+			}
+			for i, key := range a.Keys {
+				other := b.Get(key)
+				if other == nil {
+					c.Docs = []run.Doc{run.Single([]byte(baseText)), d}
+					t.Violation("entry-set-changes:"+coll, fmt.Sprintf("reordering loses the %s entry %q\n--- \n%s\n--- \n%s", coll, key, baseText, text))
+					return
+				}
+				if diff := jsonx.Diff(stripKey(a.Vals[i], "tags"), stripKey(other, "tags"), "$."+coll+".*"); diff != "" {
+					c.Docs = []run.Doc{run.Single([]byte(baseText)), d}
+					t.Violation("entry-content-changes:"+diffClass(diff), fmt.Sprintf("reordering changes the entry %q: %s\n--- \n%s\n--- \n%s", key, diff, baseText, text))
+					return
+				}
+			}
+		}
+	}
+	t.Count("hostile_documents_" + base.Outcome)
+	t.Distinct(fmt.Sprintf("hostile n%d %s %s", len(blocks), base.Outcome, run.MsgTemplate(base.Msg)))
 }
